@@ -35,7 +35,9 @@ def run(ctx, pool):
     nonideal = KINDS[2:]
     plan = [("scale", "process", ideal, ctx.n(200, 8000), ctx.n(10, 100)), ("trade", "process", ideal, ctx.n(200, 8000), ctx.n(10, 100)),
             ("dtonly", "process", ideal, ctx.n(80, 3000), ctx.n(10, 100)),
-            ("scale", "process", nonideal, ctx.n(16, 600), ctx.n(1, 10)), ("trade", "process", nonideal, ctx.n(16, 600), ctx.n(1, 10))]
+            ("scale", "process", nonideal, ctx.n(16, 600), ctx.n(1, 10)), ("trade", "process", nonideal, ctx.n(16, 600), ctx.n(1, 10)),
+            # absolute magnitudes: a gram to a tonne of feed, times or divided by 2^7 / 2^10
+            ("scaledec", "process", ideal, ctx.n(120, 4000), ctx.n(10, 100)), ("scaledec", "process", nonideal, ctx.n(32, 600), ctx.n(2, 10))]
     tw = tc.record(ctx, plan)
     res = core.validate_traces(None, ctx, tw, pool, "Trace_Twin.tla", "Trace_Twin.cfg")
     return tc.finish(res, tw, CLAUSES, "twin runs (same scenario generator as C01) with area and feed amount times k (scale), area times k "
